@@ -173,18 +173,35 @@ func checkAutomaton(d *dawg.Dawg, words []word, probes []word) error {
 	for i, w := range words {
 		member[w] = i
 	}
+	// all lookups go through ONE buffer that is overwritten in place, members and non-members interleaved (a caller
+	// scanning a text would do the same)
+	buf := make([]byte, 0, 64)
+	pi := 0
 	for i, w := range words {
-		idx, ok := d.Lookup([]byte(w))
+		buf = append(buf[:0], w...)
+		idx, ok := d.Lookup(buf)
 		if !ok || idx != i {
-			return fmt.Errorf("Lookup(%q) = (%d,%v) want (%d,true) (words %q)", w, idx, ok, i, words)
+			return fmt.Errorf("Lookup(%q) = (%d,%v) want (%d,true) (words %q)", w, idx, ok, i, clipWords(words))
+		}
+		for k := 0; k < 2 && pi < len(probes); k, pi = k+1, pi+1 {
+			p := probes[pi]
+			if _, in := member[p]; in {
+				continue
+			}
+			buf = append(buf[:0], p...)
+			if idx, ok := d.Lookup(buf); ok {
+				return fmt.Errorf("Lookup(%q) = (%d,true) but the word is not in the set %q", p, idx, clipWords(words))
+			}
 		}
 	}
-	for _, p := range probes {
+	for ; pi < len(probes); pi++ {
+		p := probes[pi]
 		if _, in := member[p]; in {
 			continue
 		}
-		if idx, ok := d.Lookup([]byte(p)); ok {
-			return fmt.Errorf("Lookup(%q) = (%d,true) but the word is not in the set %q", p, idx, words)
+		buf = append(buf[:0], p...)
+		if idx, ok := d.Lookup(buf); ok {
+			return fmt.Errorf("Lookup(%q) = (%d,true) but the word is not in the set %q", p, idx, clipWords(words))
 		}
 	}
 	nodes := d.VerifNodes()
@@ -243,6 +260,13 @@ func checkAutomaton(d *dawg.Dawg, words []word, probes []word) error {
 	return nil
 }
 
+func clipWords(w []word) []word {
+	if len(w) > 40 {
+		return w[:40]
+	}
+	return w
+}
+
 func probesFor(words []word, extra []word) []word {
 	set := map[word]bool{}
 	for _, w := range words {
@@ -283,7 +307,7 @@ type buildCase struct {
 func genBuildCase(t *rapid.T) buildCase {
 	alpha := genAlphabet(t)
 	words := genWordSet(t, alpha, sz(12, 40), 5)
-	switch rapid.IntRange(0, 11).Draw(t, "buildshape") {
+	switch rapid.IntRange(0, 12).Draw(t, "buildshape") {
 	case 0: // many words over a tiny alphabet: hundreds of register entries, many equivalent and near-equivalent nodes
 		alpha = []byte{'a', 'b'}
 		if rapid.Bool().Draw(t, "three") {
@@ -302,6 +326,22 @@ func genBuildCase(t *rapid.T) buildCase {
 				b[j] = alpha[int(h>>33)%len(alpha)]
 			}
 			set[word(b)] = true
+		}
+		words = sortedWords(set)
+	case 2: // a node below the root with a link for every byte value (and one with 255)
+		set := map[word]bool{}
+		pre := genWordOver(t, alpha, 2) + "q"
+		for x := 0; x < 256; x++ {
+			set[pre+word([]byte{byte(x)})] = true
+			if x != 7 {
+				set[pre+"r"+word([]byte{byte(x)})] = true
+			}
+			if rapid.IntRange(0, 40).Draw(t, "deeper") == 0 {
+				set[pre+word([]byte{byte(x)})+genWordOver(t, alpha, 2)] = true
+			}
+		}
+		for _, w := range words {
+			set[w] = true
 		}
 		words = sortedWords(set)
 	case 1: // long words with shared suffixes: unshared tails of 33+ letters
@@ -423,6 +463,48 @@ func checkBuildCase(c buildCase, rec *Rec) error {
 	}
 	if err := checkAutomaton(dAgain, accepted, probesFor(accepted, c.Probes)); err != nil {
 		return fmt.Errorf("Builder reused through Initialise: %v", err)
+	}
+	// and a third build of a DIFFERENT word set with the same builder (nothing of the earlier builds may leak in),
+	// which must also survive serialisation
+	var other []word
+	for i, w := range accepted {
+		if i%2 == 0 {
+			other = append(other, w+"k")
+		} else if len(w) > 0 {
+			other = append(other, w[:len(w)-1])
+		}
+	}
+	oset := map[word]bool{}
+	for _, w := range other {
+		oset[w] = true
+	}
+	other = sortedWords(oset)
+	b.Initialise()
+	for _, w := range other {
+		if aerr := b.Add([]byte(w)); aerr != nil {
+			return fmt.Errorf("third build after Initialise: Add(%q) failed: %v", w, aerr)
+		}
+	}
+	dOther, ferr := b.Finish()
+	if ferr != nil {
+		return fmt.Errorf("third Finish failed: %v", ferr)
+	}
+	if err := checkAutomaton(dOther, other, probesFor(other, c.Probes)); err != nil {
+		return fmt.Errorf("Builder reused for a different word set: %v", err)
+	}
+	if enc, eerr := dOther.GobEncode(); eerr != nil {
+		return fmt.Errorf("GobEncode of a Dawg from a reused Builder: %v", eerr)
+	} else {
+		back := new(dawg.Dawg)
+		if derr := back.GobDecode(enc); derr != nil {
+			return fmt.Errorf("GobDecode of a Dawg from a reused Builder: %v", derr)
+		}
+		if err := checkAutomaton(back, other, probesFor(other, nil)); err != nil {
+			return fmt.Errorf("Dawg from a reused Builder after a gob round trip: %v", err)
+		}
+	}
+	if err := checkAutomaton(d, accepted, probesFor(accepted, nil)); err != nil {
+		return fmt.Errorf("the first Dawg after its Builder was reused twice: %v", err)
 	}
 	// dawg.New on the clean list agrees
 	list := make([][]byte, len(accepted))
@@ -791,10 +873,12 @@ type gobCase struct {
 	Shape   string // how the word set was made (label only)
 	Words   []word
 	Queries []searcherSpec
+	// Earlier: word sets built (Add..., Finish, Initialise) with the same Builder before Words is built with it; nil = dawg.New
+	Earlier [][]word `json:",omitempty"`
 }
 
 func genGobCase(t *rapid.T) gobCase {
-	shape := rapid.SampledFrom([]string{"small", "small", "wide", "wide", "manynodes", "manywords", "mixed"}).Draw(t, "shape")
+	shape := rapid.SampledFrom([]string{"small", "small", "wide", "wide", "manynodes", "manywords", "mixed", "boundarycount"}).Draw(t, "shape")
 	set := map[word]bool{}
 	alpha := []byte{'a', 'b', 'c'}
 	switch shape {
@@ -843,6 +927,23 @@ func genGobCase(t *rapid.T) gobCase {
 			rec(append(p[:len(p):len(p)], 'b'))
 		}
 		rec(nil)
+	case "boundarycount":
+		// exactly T words with T at a length boundary of the integer encoding: the first T words over {a,b} in length-lex order
+		T := rapid.SampledFrom([]int{127, 128, 129, 255, 256, 257, 65535, 65536, 65537}).Draw(t, "T")
+		if !Thorough && T > 60000 && !rare(t, "hugecount", 8) {
+			T = 256
+		}
+		cur := []word{""}
+		for len(set) < T {
+			var next []word
+			for _, w := range cur {
+				if len(set) < T {
+					set[w] = true
+				}
+				next = append(next, w+"a", w+"b")
+			}
+			cur = next
+		}
 	case "mixed":
 		all := make([]byte, 256)
 		for i := range all {
@@ -854,6 +955,25 @@ func genGobCase(t *rapid.T) gobCase {
 	}
 	words := sortedWords(set)
 	c := gobCase{Shape: shape, Words: words}
+	if len(words) < 600 && rapid.IntRange(0, 2).Draw(t, "reusedBuilder") == 0 {
+		for i := rapid.IntRange(1, 3).Draw(t, "earlierBuilds"); i > 0; i-- {
+			es := map[word]bool{}
+			for _, w := range genWordSet(t, alpha, 10, 4) {
+				es[w] = true
+			}
+			for _, w := range words { // related sets: share suffixes with the set under test
+				switch rapid.IntRange(0, 5).Draw(t, "borrow") {
+				case 0:
+					es[w] = true
+				case 1:
+					if len(w) > 0 {
+						es[w[1:]] = true
+					}
+				}
+			}
+			c.Earlier = append(c.Earlier, sortedWords(es))
+		}
+	}
 	qalpha := []byte{'a', 'b', 'c', 0, 0x80}
 	for i := rapid.IntRange(1, 3).Draw(t, "nq"); i > 0; i-- {
 		c.Queries = append(c.Queries, genSearcherSpec(t, qalpha, words))
@@ -870,7 +990,32 @@ func dumpUpToIdentity(nodes []dawg.VerifNode) string {
 }
 
 func checkGobCase(c gobCase, rec *Rec) error {
-	d, err := buildDawg(c.Words)
+	var d *dawg.Dawg
+	var err error
+	if c.Earlier == nil {
+		d, err = buildDawg(c.Words)
+	} else {
+		rec.Label("reused-builder")
+		b := new(dawg.Builder)
+		for _, ws := range append(append([][]word{}, c.Earlier...), c.Words) {
+			if p := try(func() {
+				for _, w := range ws {
+					if err = b.Add([]byte(w)); err != nil {
+						return
+					}
+				}
+				if err == nil {
+					d, err = b.Finish()
+				}
+				b.Initialise()
+			}); p != nil {
+				return fmt.Errorf("building %q with a reused Builder panicked: %v", clipWords(ws), p)
+			}
+			if err != nil {
+				return fmt.Errorf("building %q with a reused Builder: %v", clipWords(ws), err)
+			}
+		}
+	}
 	if err != nil {
 		return err
 	}
